@@ -31,6 +31,7 @@ func runC09(c *Ctx) {
 	c09PrivateBytes(c)
 	c09QuestionMatch(c)
 	c09OnlyCloseNow(c)
+	c09DecrementCloses(c)
 	cacheKeyTypeInjective(c, "SHARED")
 }
 
